@@ -63,6 +63,10 @@ def cases(draw):
         d["incl"] = incl
     else:
         d["size"] = ["regex", b"$"]
+    in_seq = mode in ("marker", "regex", "const") and chance(draw, 0.25)
+    if in_seq:
+        # the same Data as the element of a repeated field: class options (search window) must reach it too
+        d = {"k": "seq", "name": "d", "elem": dict(d, name="_"), "count": ["const", 2], "until": None, "when": None, "aligned": None}
     fields.append(d)
     if mode != "eos":
         fields.append({"k": "int", "name": "q", "n": 1})
@@ -74,6 +78,11 @@ def cases(draw):
 
     def add(label, body):
         inputs.append((label, pbyte + body, 0))
+        if in_seq:
+            inputs.append((label + "+2nd", pbyte + body[:-1] + body, 0))
+            inputs.append((label + "+2nd", pbyte + body + body[-1:], 0))
+
+    d = d["elem"] if in_seq else d
 
     if mode in ("const", "field", "expr", "call"):
         for _ in range(8):
@@ -133,6 +142,11 @@ def check_input(ctx, live, fam, cg, label, raw, mode):
         return
     vals, end, P = m[1], m[2], m[3]
     d = [f for f in fam["pkts"][0]["fields"] if f["name"] == "d"][0]
+    if d["k"] == "seq":
+        ctx.count("data_as_sequence_element")
+        if any(v == b"" for v in vals["d"]):
+            ctx.nt((live.src, raw))
+        return
     sz = d["size"]
     r = live.unpack(raw, 0)
     if r[0] == "ok" and (sz[0] != "regex" or d.get("incl") or sz[1] == b"$" or not [x for x in REGEXES if x[0] == sz[1]][0][3]):
